@@ -769,7 +769,8 @@ fn eval(name: &str, a: &[Value]) -> Value {
             match res {
                 Ok(outs) => json!({"Ok": outs.iter().map(|o| format!("{:?}", o.exit_code)).collect::<Vec<_>>()}),
                 Err(scrut::executors::error::ExecutionError::Skipped(i)) => json!({"Err": format!("Skipped({})", i)}),
-                Err(scrut::executors::error::ExecutionError::Timeout(k, _)) => json!({"Err": format!("Timeout({:?})", k)}),
+                Err(scrut::executors::error::ExecutionError::Timeout(k, outs)) => json!({"Err": format!("Timeout({:?})", k),
+                    "kept_stdout": outs.iter().map(|o| { let b: Vec<u8> = (&o.stdout).into(); b }).collect::<Vec<_>>()}),
                 Err(e) => json!({"Err": format!("{:#}", e).chars().take(120).collect::<String>()}),
             }
         }
